@@ -62,7 +62,7 @@ def gen_program(rng, tier):
         # close?
         r = rng.random()
         if r < 0.5:
-            mode = rng.choice(["immediate", "before-ack", "after-open", "both-ends", "remote", "late"])
+            mode = rng.choice(["immediate", "before-ack", "after-open", "both-ends", "remote", "late", "in-open-handler"])
             if mode == "immediate":
                 ops.append(("close", round(t, 4), k, creator))
                 feats.add("close-race")
@@ -76,6 +76,9 @@ def gen_program(rng, tier):
                 ops.append(("close", tc, k, "A"))
                 ops.append(("close", round(tc + rng.choice([0.0, 0.0, 0.01, 0.05]), 4), k, "B"))
                 feats.add("close-both")
+            elif mode == "in-open-handler":
+                ops[-1][3]["close_on_open"] = rng.choice([creator, creator, "B" if creator == "A" else "A"])
+                feats.add("close-in-handler")
             elif mode == "remote":
                 ops.append(("close", round(max(t, 0.5) + rng.uniform(0.2, heal), 4), k, "B" if creator == "A" else "A"))
             else:
@@ -149,6 +152,8 @@ def run_case(index, rng, tier):
                     rig.create_channel(eps[p["creator"]], uid, ordered=p["ordered"], maxRetransmits=p["maxRetransmits"],
                                        maxPacketLifeTime=p["maxPacketLifeTime"], protocol=p["protocol"], label=p["label"])
                 created[k] = p
+                if p.get("close_on_open") and uid in rig.chans:
+                    rig.chans[uid].close_on_open = p["close_on_open"]
             except Exception as exc:
                 legal = eps[p["creator"]].sctp.state != "closed"
                 if legal:
